@@ -32,7 +32,11 @@ REPLAY_DIR = os.environ.get("VERIF_REPLAY_DIR", os.path.join(VERIF, "replays"))
 LOG_DIR = os.environ.get("VERIF_LOG_DIR", os.path.join(VERIF, "logs"))
 MEM_KB = int(os.environ.get("VERIF_MEM_GB", "20")) * 1024 * 1024
 
-FUNC_FLAGS = ["-Z", "unstable-options", "--no-memory-safety-checks", "--no-undefined-function-checks"]
+# --no-assertion-reach-checks: Kani's per-assertion reachability covers cost one SAT call plus one trace each
+# (measured: 1140 s -> 320 s on c01_server_s_to_k); vacuity is guarded by the explicit kani::cover! witnesses
+# and the stub-reached counters of every harness instead.
+FUNC_FLAGS = ["-Z", "unstable-options", "--no-memory-safety-checks", "--no-undefined-function-checks",
+              "--no-assertion-reach-checks"]
 
 
 def log(msg):
@@ -415,7 +419,7 @@ def match_known(pid, h, failed, known):
 # main
 # ------------------------------------------------------------------------------------------------
 
-def write_evidence(pid, tier, seed, results, wall, violations, known_hits, hs):
+def write_evidence(pid, tier, seed, results, wall, violations, known_hits, hs, partial=False):
     obligations = len(results)
     discharged = sum(1 for r in results if r["status"] == "PASS")
     queries = []
@@ -470,8 +474,10 @@ def write_evidence(pid, tier, seed, results, wall, violations, known_hits, hs):
         "wall_s": round(wall, 1),
         "violations": violations,
     }
-    os.makedirs(EVID_DIR, exist_ok=True)
-    json.dump(ev, open(os.path.join(EVID_DIR, pid + ".json"), "w"), indent=1)
+    # a run restricted with --harness / --compile-only is not a record of the property's check: keep it out of evidence/
+    outdir = os.path.join(LOG_DIR, pid) if partial else EVID_DIR
+    os.makedirs(outdir, exist_ok=True)
+    json.dump(ev, open(os.path.join(outdir, (pid + ".partial.json") if partial else (pid + ".json")), "w"), indent=1)
 
 
 def select(pid, tier, only):
@@ -586,7 +592,8 @@ def main(argv):
         r.pop("playback_tests", None)
     # a KNOWN harness counts as discharged-with-finding for the exit code but not as PASS in evidence
     wall = time.time() - t0
-    write_evidence(pid, tier, seed, results, wall, violations, known_hits, hs)
+    partial = bool(only) or bool(os.environ.get("VERIF_COMPILE_ONLY"))
+    write_evidence(pid, tier, seed, results, wall, violations, known_hits, hs, partial)
     if not keep:
         shutil.rmtree(os.path.join(SCRATCH_ROOT), ignore_errors=True) if not os.listdir(SCRATCH_ROOT) else None
     if violations:
